@@ -579,13 +579,16 @@ theorem distNext_drop (e : Int) (ivs : List Row) (c : Nat) (h : ∀ iv ∈ ivs.t
   conv => rhs; rw [← List.take_append_drop c ivs]
   simp only [distNext, List.filter_append, hz, List.nil_append]
 
+/-- distance from `t` to the end of an optional row, `prev` when there is none -/
+def lastDist (t prev : Int) : Option Row → Int
+  | some iv => t - iv.endt
+  | none => prev
+
 /-- the first inner loop, on any suffix `l` of the sorted, non-overlapping, positive-length intervals -/
 theorem prevLoop_eq (t : Int) (l : List Row) : ∀ (prev : Int) (seen : Nat),
     sortedByTimeB l = true → nonOverlapB l = true → positiveRowsB l = true →
     prevLoop t l prev seen =
-      ((match (l.filter fun iv => decide (iv.endt ≤ t)).getLast? with
-        | some iv => t - iv.endt
-        | none => prev),
+      (lastDist t prev (l.filter fun iv => decide (iv.endt ≤ t)).getLast?,
        seen + (l.filter fun iv => decide (iv.endt ≤ t)).length) := by
   induction l with
   | nil => intros; rfl
@@ -605,7 +608,7 @@ theorem prevLoop_eq (t : Int) (l : List Row) : ∀ (prev : Int) (seen : Nat),
           | head => exact Int.le_refl _
           | tail _ h => exact sortedByTimeB_head_le hs b h
         simp; omega
-      simp [prevLoop, hbr, hnone]
+      simp [prevLoop, hbr, hnone, lastDist]
     · by_cases hdt : iv.endt ≤ t
       · have hdt' : t - iv.endt ≥ 0 := by omega
         simp only [prevLoop, hbr, ite_false, hdt', ite_true, List.filter_cons, hdt, decide_true,
